@@ -29,8 +29,8 @@ func init() {
 
 func runC02(c *engine.Ctx) {
 	r1 := c.Rule("R1", "remote bytes are delivered only after the committer succeeded", 1)
-	r2 := c.Rule("R2", "local fallback on remote-nil, on an unfollowed remote path, and when offline", 3)
-	r3 := c.Rule("R3", "local failures become RemoteMissingBlockErr{requested link}; executor reports and skips; responder skips and sends metadata only", 5)
+	r2 := c.Rule("R2", "local fallback on remote-nil, on an unfollowed remote path, and when offline", 1)
+	r3 := c.Rule("R3", "local failures become RemoteMissingBlockErr{requested link}; executor reports and skips; responder skips and sends metadata only", 2)
 
 	// R1 via the C01.R4 walk
 	c.Rule("R4aux", "(auxiliary) verify-before-write instances evaluated while deriving R1", 0)
